@@ -56,6 +56,7 @@ class Ctx:
         self.suppressions: list[dict] = []
         self.extra: dict[str, Any] = {}
         self.floors: dict[str, tuple[int, int]] = {}
+        self.deferred_errors: list[str] = []
         self.t0 = time.time()
 
     # -- bookkeeping ------------------------------------------------------------
@@ -86,7 +87,8 @@ class Ctx:
         n = sum(1 for i in self.instances if i.rule == rule)
         self.floors[rule] = (n, minimum)
         if n < minimum:
-            raise AnalysisError(
+            # deferred: a violation found elsewhere in the run takes precedence over this
+            self.deferred_errors.append(
                 f"rule {rule}: only {n} instance(s) matched, {minimum} confirmed by reading "
                 "(anchor moved or pattern no longer recognised)"
             )
@@ -114,6 +116,13 @@ def finish(ctx: Ctx, error: str | None = None) -> int:
         print(f"KNOWN-FINDING: property={ctx.prop} {f.rule} {f.where} {f.msg}")
     stale = [k for k in open_keys if not any(f.key == k for f in matched)]
     lines = []
+    if error is None and ctx.deferred_errors and not new:
+        error = "; ".join(ctx.deferred_errors)
+    if error is not None and new:
+        # something is demonstrably wrong in the analysed tree: report it rather than the analysis gap
+        print(f"  (analysis incomplete: {error})")
+        ctx.extra["analysis_incomplete"] = error
+        error = None
     if error is None:
         viol_dir.mkdir(parents=True, exist_ok=True)
         for old in viol_dir.glob(f"{ctx.prop}-*.json"):
